@@ -781,10 +781,29 @@ var ruleSnapshot = &core.Rule{ID: "R06.6", Min: 6,
 						}
 					}
 				}
+				gl, isLoad := core.LoadOfGlobal(w.Common().Args[0])
+				s.Check(isLoad && nodeOfGlobal(m.tm, gl) == m.tm.Root, core.FName(f)+": walk starts at the root", c.Pos(w.Pos()), "root.match(...)", "a detection entry starts the walk at a node other than the root (or at a precomputed result): root-level formats and extensions registered later are not consulted for such inputs")
 				s.Check(held >= 1, core.FName(f)+": walk called with the read lock held", c.Pos(w.Pos()), "lock state "+lockName(held), "the walk is entered without the tree lock")
 			}
 		}
 		s.Check(nEntries >= 2, "detection entries found", "-", fmt.Sprint(nEntries), "fewer than two exported detection entries reach the walk")
+		// wherever the walk is started from outside itself (entries or their helpers), it starts at the root
+		nStart := 0
+		for _, f := range c.AllModFuncs() {
+			if f == walk {
+				continue
+			}
+			for _, ci := range core.Calls(f) {
+				if ci.Common().StaticCallee() != walk {
+					continue
+				}
+				nStart++
+				gl, isLoad := core.LoadOfGlobal(ci.Common().Args[0])
+				inInit := f.Name() == "init" && f.Synthetic != ""
+				s.Check(isLoad && nodeOfGlobal(m.tm, gl) == m.tm.Root && !inInit, fmt.Sprintf("%s: walk #%d starts at the root at call time", core.FName(f), nStart), c.Pos(ci.Pos()), "root.match(...) in a detection path",
+					"the walk is started at a node other than the root, or its result is precomputed at initialisation: root-level formats and extensions registered later are not consulted")
+			}
+		}
 		// writer regions: blocks with state W contain no call other than append/mutex and no back edge
 		for _, f := range m.fs {
 			for b, stt := range regions[f] {
